@@ -11,6 +11,8 @@ CONSTANTS
   Weak_RejectSendersIgnored = FALSE
   Weak_DupOverwrites = FALSE
   Weak_RejectNotBlacklisted = FALSE
+  Weak_FormatNotBlacklisted = FALSE
+  Weak_NoSyncerLevelCheck = FALSE
 INIT Init
 NEXT Next
 CHECK_DEADLOCK FALSE
